@@ -7,14 +7,14 @@ from common import Case
 
 PID = "C17"
 OPNAMES = {27: "update_decode", 28: "unfe"}
-ORACLES = {27: 129, 28: 128}
+ORACLES = {27: [129, 130], 28: 128}
 RULE = ("UPDATE bodies as in C16 (grammar, faults, mutations) x callback scripts: nil everywhere, or an error of each "
         "class (Notification, treat-as-withdraw with/without fallback, attribute-discard, foreign UpdateError, plain "
         "error, errors.Join / %w trees of those) at each callback position; error trees for UpdateNotificationFromErr "
         "generated to depth 3. distinct = distinct (body, script) / trees.")
 ASSUMPTIONS = ["foreign UpdateError values return a non-nil Notification from AsSessionReset",
                "typed-nil errors inside trees are outside the model"]
-COQ_FILES = ["Model/Update.v", "Model/Errors.v", "Spec/UpdateSpec.v", "Proofs/UpdateProofs.v", "Props/C17.v"]
+COQ_FILES = ["Model/Update.v", "Model/Errors.v", "Spec/UpdateSpec.v", "Proofs/UpdateProofs.v", "Proofs/UpdateErrProofs.v", "Proofs/ErrorProofs.v", "Props/C17.v"]
 
 LEAVES = [[1, 3, 1, 0], [1, 6, 2, 0], [2, 9, [0]], [2, 8, [1, 3, 5, 2, 8, 0]], [3, 7, [0]], [3, 6, [1, 3, 5, 0]], [4, 3, 9, 0], [5]]
 
